@@ -127,3 +127,22 @@ journal_harness! { #[kani::unwind(4)] fn c11_failed_append_in_the_middle_kf_jour
 journal_harness! { #[kani::unwind(4)] fn c11_failed_first_append_kf_journalindex() { failed_append(true) } }
 
 
+
+// restart on a journal with one entry: the next command continues at index 1 and the journal loads
+journal_harness! { #[kani::unwind(4)] fn c11_restart_after_one_entry_continues_at_next_index() {
+    mfs::strict(true);
+    let st = new_state("j", Arc::new(PersisterKind::File(FilePersister)));
+    mfs::OpenOptions::new().write(true).create(true).open("j").unwrap();
+    st.apply(1, cmd()).unwrap();
+    // "restart": a fresh FileState over the same file
+    let st2 = new_state("j", Arc::new(PersisterKind::File(FilePersister)));
+    let loaded = st2.init().unwrap();
+    assert!(loaded.len() == 1 && loaded[0].index == 0);
+    st2.apply(7, cmd()).unwrap();
+    let r = st2.load_entries();
+    assert!(r.is_ok(), "after a restart and one more command the journal no longer loads");
+    let e = r.unwrap();
+    assert!(e.len() == 2 && e[0].index == 0 && e[1].index == 1, "index after restart is not last + 1");
+    kani::cover!(true, "reached");
+    core::mem::forget(loaded); core::mem::forget(e); core::mem::forget(st); core::mem::forget(st2);
+} }
